@@ -830,7 +830,8 @@ class C07(Check):
                 # priorities, which the model can be asked about; if that run is fine the overrun cannot be judged (exit 2)
                 alt = {k: v for k, v in case.items() if k not in ("prio", "draws")}
                 aobs = self.run_threads(alt, want_choices=want_choices)
-                if not aobs.get("runaway"): raise Infra("step budget exceeded (%d steps) in a case the model does not cover" % ctl.steps)
+                if not aobs.get("runaway") and self.oracle_threads(alt, aobs) is None:
+                    raise Infra("step budget exceeded (%d steps) in a case the model does not cover" % ctl.steps)
                 aobs["substituted"] = "priorities dropped: the run with priorities exceeded the step budget"
                 return aobs
             at = self.budget_divergence(case, obs)
